@@ -16,14 +16,24 @@ os.makedirs('/tmp/mut/prompts', exist_ok=True)
 names = []
 off = int(sys.argv[2]) if len(sys.argv) > 2 else 0
 for i, p in enumerate(props):
+    if os.environ.get("ONLY") and p['id'] not in os.environ["ONLY"].split(","):
+        continue
     name = f"{p['id']}{sfx}"
     d = f"/tmp/mut/{name}"
     subprocess.run(['git', '-C', '/repo', 'worktree', 'add', '-q', '--detach', d, 'HEAD'], check=True)
     open(f'{d}/src/kio/_version.py', 'w').write('__version__ = "0.0.0"\n__version_tuple__ = (0, 0, 0)\n')
     theme = THEMES[(i + off) % len(THEMES)]
+    if os.environ.get("ONLY") and p['id'] not in os.environ["ONLY"].split(","):
+        continue
     extra = (f"The change must read as {theme}. Stay away from the single most obvious line for this property - assume a reviewer already guards that spot; "
              f"look for a second, less expected place in the code base through which the property can be broken (another module on the same path, a helper, a default, a cache, a constant, the generator or its output). "
              + (H if p['id'] in ('C04', 'C16') else ''))
+    if os.environ.get("ANTI_BOUNDARY"):
+        extra = ("Assume the people guarding this property check it by bounded enumeration: every entity class, boundary values only (0, +-1, the limits of each integer type, "
+                 "lengths 0 / 1 / 126 / 127 / 128 / 16383 / 16384 / 32767, arrays of 0, 1, 2, 127 or 128 items, null / empty / default), and at most two fields deviating from a default "
+                 "instance at a time; histories of at most three calls; two threads. Make your change manifest only OUTSIDE such a space - a mid-range value, a length or count that is no "
+                 "boundary of the format, a combination of three or more fields, the fourth call, a value that is special only to your change - while still reading as a realistic slip or "
+                 "well-meant change, not as an arbitrary magic number. " + (H if p['id'] in ('C04', 'C16') else ''))
     out = subprocess.run(['python3', '/verif/tools/mutprompt.py', p['id'], d, extra], capture_output=True, text=True).stdout
     out = out.replace("(verify both: use `git stash` / `git stash pop` to check the unchanged behaviour)",
                       f"(verify both; do NOT use `git stash`: use `git diff > /tmp/mut/{name}.patch; git checkout -- . ; <run>; git apply /tmp/mut/{name}.patch`)")
